@@ -509,6 +509,24 @@ def main(ctx):
 
     ctx.lattice("input-layouts", lunits, one, expand=expand_lay, bounds=dict(layouts=C14_LAYOUTS, data=[list(d) for d in LDATA]))
 
+    # weights (and the second variable) in other physical units: the weighted statistics are scale-free in the
+    # weights, so the same weight pattern is used scaled far down and far up (inverse variances of 1e-12 are
+    # ordinary); an absolute threshold on a weight sum breaks exactly here
+    WSCALES = [1e-12, 1e-20, 1e-300, 1e12, 1e150]
+    sunits = [(sc, bk, bv) for sc in WSCALES for (bk, bv) in BINNING]
+
+    def expand_scale(u):
+        sc, bkind, bval = u
+        for data in LDATA:
+            n = len(data)
+            for ws in (0, 1):
+                w = tuple(v * sc for v in wcyc(n, ws))
+                for mn, mx in ((None, None), (0.5, None)):
+                    for (y, entry, eng) in ((None, "hist-weights", True), (ycyc(n), "binner", True), (ycyc(n), "binner", False)):
+                        yield ("f8", data, w, y, bkind, bval, mn, mx, entry, eng)
+
+    ctx.lattice("weight-scales", sunits, one, expand=expand_scale, bounds=dict(scales=WSCALES, data=[list(d) for d in LDATA]))
+
     # ---------------------------------------------------------- part: nperbin
     def one_nper(case, rec):
         data, w, y, nper, ml, mn, mx, entry, eng = case
@@ -735,3 +753,35 @@ def main(ctx):
     ctx.histories("reuse", roots, execute, depth=ctx.pick(4, 5), nodedup_depth=3,
                   bounds=dict(configs=[dict(c) for c in CFGS], roots=len(roots),
                               calls_per_object=ctx.pick(3, 4)))
+
+    # ------------------------------------------------------------ call sequences
+    # sequences of histogram(more=True) / Binner calls in one process with several results alive at once
+    # (mc/worlds.py call_sequences): reverse indices or per-bin arrays that are views of a module-level
+    # scratch buffer are overwritten by the next call; split dohist(calc_stats=False) ... calc_stats() pairs
+    # with another Binner's histogram in between
+    from mc.worlds import call_sequences
+
+    def seq_pool():
+        return dict(d1=np.array([0.0, 0.5, 1.0, 1.5, 2.0, 3.7, 1.0, 3.0]), d2=np.array([3.0, 1.0, 2.0, 2.0]),
+                    w1=np.array([1.0, 2.0, 0.5, 1.0, 2.0, 0.5, 1.0, 2.0]), w2=np.array([2.0, 0.5, 1.0, 2.0]),
+                    y1=np.array([0.5, 1.0, 1.5, 2.0, 2.5, 3.0, 3.5, 4.0]))
+
+    SEQ_CALLS = [("more", "d1", None, 1.0), ("more", "d2", None, 1.0), ("more", "d1", "w1", 0.5), ("more", "d2", "w2", 0.5),
+                 ("split", "d1", "w1", "d2"), ("split", "d2", "w2", "d1"), ("nper", "d1", 3), ("nper", "d2", 2)]
+
+    def _dictvals(r):
+        return [np.asarray(r[k]) for k in sorted(r.keys()) if isinstance(r[k], (np.ndarray, float, int, np.generic))]
+
+    def seq_run(c, pool):
+        if c[0] == "more":
+            return _dictvals(stat.histogram(pool[c[1]], weights=None if c[2] is None else pool[c[2]], binsize=c[3], more=True, rev=True))
+        if c[0] == "nper":
+            return _dictvals(stat.histogram(pool[c[1]], nperbin=c[2], more=True, rev=True))
+        b1 = stat.Binner(pool[c[1]], weights=pool[c[2]])
+        b1.dohist(binsize=1.0, rev=True, calc_stats=False)
+        b2 = stat.Binner(pool[c[3]])
+        b2.dohist(binsize=0.5, rev=True)                 # another object's histogram in between
+        b1.calc_stats()
+        return _dictvals(dict(b1)) + _dictvals(dict(b2))
+
+    call_sequences(ctx, "call-sequences", seq_pool, SEQ_CALLS, seq_run, lambda: [su], depth=3, nodedup_depth=3, result_edits=True)
